@@ -275,6 +275,18 @@ Exp_renamedim(f, a) ==
                         [f.vars[i] EXCEPT !.dims = [j \in 1..Len(f.vars[i].dims) |->
                                                       IF f.vars[i].dims[j] = a.old THEN a.new ELSE f.vars[i].dims[j]]]]]
 
+\* renameDimensions(**{old: new, ...}) : a.pairs = Seq([old, new]), simultaneous
+RenMap(a, n) == IF \E q \in 1..Len(a.pairs) : a.pairs[q].old = n
+                THEN a.pairs[CHOOSE q \in 1..Len(a.pairs) : a.pairs[q].old = n].new ELSE n
+Dom_renamedims(f, a) ==
+  /\ Len(a.pairs) >= 1
+  /\ \A q \in 1..Len(a.pairs) : HasDim(f, a.pairs[q].old) /\ ~HasDim(f, a.pairs[q].new)
+  /\ \A q1, q2 \in 1..Len(a.pairs) : q1 # q2 => (a.pairs[q1].old # a.pairs[q2].old /\ a.pairs[q1].new # a.pairs[q2].new)
+Exp_renamedims(f, a) ==
+  [f EXCEPT !.dims = [i \in 1..Len(f.dims) |-> [f.dims[i] EXCEPT !.n = RenMap(a, f.dims[i].n)]],
+            !.vars = [i \in 1..Len(f.vars) |->
+                        [f.vars[i] EXCEPT !.dims = [j \in 1..Len(f.vars[i].dims) |-> RenMap(a, f.vars[i].dims[j])]]]]
+
 \* ============================================================ removeSingleton
 \* a.h : a dimension is named; a.d : its name
 Dom_rmsingle(f, a) == TRUE
@@ -396,13 +408,19 @@ ArithVar(f, g, a, v) ==
            \* without masked cells; two plain integer arrays give 0
            intdivzero == [k \in 1..Len(v.vals) |-> /\ dt \in IntTypes /\ a.op \in {"//", "%"}
                                                    /\ ~(v.mask[k] \/ w.mask[k]) /\ w.vals[k].n = 0]
+           \* non-finite operands (logged as n/0: 1/0 = +inf, -1/0 = -inf, 0/0 = nan):
+           \* +, - and * give a non-finite result, which the file operators mask;
+           \* for the other operators the cell is not decided
+           nonfin == [k \in 1..Len(v.vals) |-> ~(v.mask[k] \/ w.mask[k]) /\ (v.vals[k].d = 0 \/ w.vals[k].d = 0)]
            c == [k \in 1..Len(v.vals) |->
                    IF v.mask[k] \/ w.mask[k] THEN [ok |-> FALSE, v |-> RInt(0)]
+                   ELSE IF nonfin[k] THEN [ok |-> FALSE, v |-> RInt(0)]
                    ELSE IF intdivzero[k] THEN (IF v.masked \/ w.masked THEN [ok |-> FALSE, v |-> RInt(0)]
                                                ELSE [ok |-> TRUE, v |-> RInt(0)])
                    ELSE ArithCellT(a.op, v.vals[k], w.vals[k], dt)]
        IN [v EXCEPT !.vals = [k \in 1..Len(c) |-> c[k].v],
                     !.mask = [k \in 1..Len(c) |-> ~c[k].ok]]
+          @@ [freecells |-> [k \in 1..Len(c) |-> nonfin[k] /\ a.op \notin {"+", "-", "*"}]]
 Exp_arith(fs, a) ==
   [fs[1] EXCEPT !.vars = [i \in 1..Len(fs[1].vars) |-> ArithVar(fs[1], fs[2], a, fs[1].vars[i])]]
 
@@ -472,17 +490,20 @@ RECURSIVE MaxSeqI(_)
 MaxSeqI(s) == IF Len(s) = 0 THEN 0 ELSE MaxI(Head(s), MaxSeqI(Tail(s)))
 MaxAbs(v) == IF v.enc # "num" THEN 0 ELSE MaxSeqI([k \in 1..Len(v.vals) |-> AbsI(v.vals[k].n)])
 MaxDen(v) == IF v.enc # "num" THEN 1 ELSE MaxSeqI([k \in 1..Len(v.vals) |-> v.vals[k].d])
+HasNonFin(v) == v.enc = "num" /\ \E k \in 1..Len(v.vals) : ~v.mask[k] /\ v.vals[k].d = 0
 Dec_apply(f, a) ==
   \A i \in 1..Len(f.vars) :
     LET v == f.vars[i]
         axes == {ax \in 1..Len(v.dims) : v.dims[ax] \in FuncDims(a)}
         fns == {FuncOf(a, v.dims[ax]).f : ax \in axes}
     IN axes # {} =>
-         /\ MaxDen(v) = 1 /\ Cardinality(axes) <= 2
+         /\ MaxDen(v) = 1 /\ Cardinality(axes) <= 2 /\ ~HasNonFin(v)
          \* float32 variance is not exact enough to identify the rational value
          /\ ("var" \in fns => Cardinality(axes) = 1 /\ MaxAbs(v) <= 2000 /\ v.dt # "f")
          /\ ("prod" \in fns => Cardinality(axes) = 1 /\ MaxAbs(v) <= 30)
          /\ MaxAbs(v) <= 20000
+\* comparisons with non-finite cells are not modelled
+Dec_mask(f, a) == Len(a.p) = 0 \/ \A i \in 1..Len(f.vars) : ~HasNonFin(f.vars[i])
 Dec_arith(fs, a) ==
   \A i \in 1..Len(fs[1].vars) :
     LET v == fs[1].vars[i] IN
@@ -503,5 +524,5 @@ ExprBound(e) ==
 Dec_eval(f, a) ==
   \A i \in 1..Len(a.assign) :
     /\ ExprBound(a.assign[i].e) < 1000000000
-    /\ \A k \in ExprVars(a.assign[i].e) : MaxAbs(VarRec(f, k)) <= 1000 /\ MaxDen(VarRec(f, k)) = 1
+    /\ \A k \in ExprVars(a.assign[i].e) : MaxAbs(VarRec(f, k)) <= 1000 /\ MaxDen(VarRec(f, k)) = 1 /\ ~HasNonFin(VarRec(f, k))
 =================================================================================
